@@ -139,7 +139,10 @@ def _parse_harnesses():
                 exc = ParseError("parsing failed\nsecond line")
             parser = cp.CELParser()
             saved = cp.CELParser.CEL_PARSER
-            cp.CELParser.CEL_PARSER = Stub(exc)
+            stub = Stub(exc)
+            cp.CELParser.CEL_PARSER = stub       # the shared Lark object ...
+            if hasattr(parser, "parser"):
+                parser.parser = stub             # ... and the per-instance reference, whichever parse() uses
             try:
                 try:
                     parser.parse(text)
